@@ -173,6 +173,15 @@ WithExpect(z, r) ==
                [] r.args.oc = "prefer" -> Prefer(c, r.args.off)
                [] OTHER -> IF ~Settled(z, c) THEN <<"skip">>
                            ELSE IF r.args.off \in Pre(z, c) THEN <<"at", InstOfCivil(c, r.args.off)>> ELSE <<"err">>)
+       \* the civil datetime resolved again / moved to the first or last day of its month, compatibly
+       [] r.args.kind = "rez" -> Prefer(c, NoOffset)
+       [] r.args.kind = "fom" -> Prefer(<<EpochDayOf(dt[1], dt[2], 1), c[2], c[3]>>, NoOffset)
+       [] r.args.kind = "lom" -> Prefer(<<EpochDayOf(dt[1], dt[2], DaysInMonth(dt[1], dt[2])), c[2], c[3]>>, NoOffset)
+       [] r.args.kind = "sod" -> IF ~StartSettled(z, c[1]) THEN <<"skip">>
+                                 ELSE LET e == StartOfDay(z, t) IN IF e = <<>> THEN <<"err">> ELSE <<"at", e>>
+       [] r.args.kind = "day" -> LET sp == [SpanZero EXCEPT !.d = r.args.n] IN
+                                 IF ~ZAddSettled(z, t, sp) THEN <<"skip">>
+                                 ELSE LET e == ZAdd(z, t, sp) IN IF e = <<>> THEN <<"err">> ELSE <<"at", e>>
        [] OTHER -> <<"skip">>
 WithWhy(z, r) ==
   LET e == WithExpect(z, r) IN
